@@ -37,7 +37,12 @@ KINDS = {
     'LBt': ('_thread', '', True, True),
     'IG': ('threading', 'ign-worker', True, False),
     'NI': ('threading', 'xign-worker', True, False),
+    # matched / not matched by the second ignore pattern (a regex with a
+    # comma inside a quantifier)
+    'PG': ('threading', 'pool-12', True, False),
+    'PN': ('threading', 'pool-12345', True, False),
 }
+IGNORE = ['ign', r'pool-\d{1,3}$']
 KL = list(KINDS)
 
 
@@ -158,7 +163,7 @@ def run_case(case):
         worldrt.thread_action(['start', '_thread', '', 'pre2', True])
         pre = {worldrt.VTABLE.recs['pre1']['ident'], worldrt.VTABLE.recs['pre2']['ident']}
     try:
-        res = runrt.run_world(spec, ['--ignore-new-thread', 'ign'], probe=False)
+        res = runrt.run_world(spec, [x for p in IGNORE for x in ('--ignore-new-thread', p)], probe=False)
         if mode == 'real':
             reg = {tid: dict(ident=r['ident'], name=r['name'], api=r['api'])
                    for tid, r in worldrt.THREADS.items()}
@@ -196,7 +201,7 @@ def run_case(case):
                 continue
             if released_in.get(tid) == i:
                 continue
-            if re.match('ign', reg[tid]['name'] or ''):
+            if any(re.match(p, reg[tid]['name'] or '') for p in IGNORE):
                 continue
             want.add(ident)
         got = set()
